@@ -405,6 +405,14 @@ BENIGN: List[Tuple[str, str, List[Tuple[str, str]]]] = [
                                    '        logger.debug("Start executing {} (priority {}) with task {}", self.id, self.priority, self.exec_function)')]),
     ("root-alias-truthiness", D, [("        if root_nodes is not None:\n            root_nodes = self.get_multiple_nodes_aliases(root_nodes)\n\n        graph = self.graph_ids.make_subgraph(",
                                    "        if root_nodes:\n            root_nodes = self.get_multiple_nodes_aliases(root_nodes)\n\n        graph = self.graph_ids.make_subgraph(")]),
+    ("exclude-loop-over-closure", G, [("            graph.remove_nodes_from(graph.multiple_nodes_successors(exclude_nodes))",
+                                       "            for excluded_id in graph.multiple_nodes_successors(exclude_nodes):\n                graph.remove_node(excluded_id)")]),
+    ("writeback-nested-ifs", D, [("""            if xn.setup and not xn.executed(self.results):
+                logger.debug("Setting result of setup ExecNode {} to {}", node_id, result)
+                logger.debug("Future executions will use this result.")
+                self.results[node_id] = result""", """            if xn.setup:
+                if node_id not in self.results:
+                    self.results[node_id] = result""")]),
     ("conf-if-in", N, [('values["priority"] = conf.get("priority", self.priority)', 'values["priority"] = conf["priority"] if "priority" in conf else self.priority')]),
 ]
 
